@@ -126,6 +126,16 @@ Proof.
   - intros sb k. unfold first_signed, render_signed, with_sb. cbn [rr_msg o_date o_msgid o_rb o_sb]. now rewrite !s_msg_resolve.
 Qed.
 
+(* stated for the paths that sign *)
+Theorem signed_paths_agree_signing : forall signer o1 m k1 ops e rd,
+  files_ok m -> clean (resolve (o_date o1) (o_msgid o1) (o_rb o1) m) ->
+  forallb (fun x => negb (is_edit x)) ops = true ->
+  forallb signing_op ops = true ->
+  let m1 := rr_msg (render_signed signer o1 m k1) in
+  run_ops (render_signed signer) (mkps (mkb e m1) rd) ops =
+  (mkps (mkb e m1) (fst (ref_ops (first_signed signer o1 m) rd ops)), snd (ref_ops (first_signed signer o1 m) rd ops)).
+Proof. intros signer o1 m k1 ops e rd Hf Hc Hne _. exact (signed_paths_agree signer o1 m k1 ops e rd Hf Hc Hne). Qed.
+
 (* the signed entity does not depend on the wrapper boundary drawn, nor on the destination *)
 Theorem signed_same_entity : forall signer o1 m sb k sb' k',
   rr_input (first_signed signer o1 m sb k) = rr_input (first_signed signer o1 m sb' k').
